@@ -886,6 +886,16 @@ def str_method(it, s, name, node):
             return SStr([('opaque', 'str.' + fn, (s,) + tuple(args))])
         return f
 
+    def just(align):
+        def f(it_, args, kw, n):
+            if isinstance(s, str) and all(isinstance(a, (str, int)) for a in args):
+                return getattr(s, {'<': 'ljust', '>': 'rjust'}[align])(*args)
+            if len(args) == 1 and isinstance(args[0], int):
+                # s.ljust(n) / s.rjust(n) with the default fill is format(s, '<n') / format(s, '>n')
+                return SStr([('pad', to_sstr(s), args[0], align)]) if args[0] > 0 else s
+            return SStr([('opaque', 'str.just' + align, (s,) + tuple(args))])
+        return f
+
     def startswith(it_, args, kw, n):
         if isinstance(s, str) and isinstance(args[0], str):
             return s.startswith(args[0])
@@ -903,10 +913,58 @@ def str_method(it, s, name, node):
         if isinstance(s, str):
             return s.encode(*args)
         raise Unsupported('encode symbolic')
+
+    def endswith(it_, args, kw, n):
+        if isinstance(s, str) and isinstance(args[0], (str, tuple)):
+            return s.endswith(args[0])
+        from .libops import _single_atom
+        t = _single_atom(s)
+        if t is not None and isinstance(args[0], str):
+            fn = z3.Function('str.endswith.' + args[0], I, B)
+            for lit, k in list(_known_literals().items()):
+                it.ctx.facts.append(fn(z3.IntVal(k)) == z3.BoolVal(lit.endswith(args[0])))
+            return mk_bool(fn(t))
+        raise Unsupported('endswith symbolic')
+
+    def format_(it_, args, kw, n):
+        # str.format with a literal template: the f-string with the same fields
+        if not isinstance(s, str):
+            return SStr([('opaque', 'str.format', (s,) + tuple(args))])
+        import string
+        from .libops import format_value, to_str, to_repr, str_concat
+        out = ''
+        auto = 0
+        for lit, field, spec, conv in string.Formatter().parse(s):
+            out = str_concat(out, lit)
+            if field is None:
+                continue
+            if spec and ('{' in spec):
+                raise Unsupported('nested format field')
+            if field == '':
+                if auto >= len(args):
+                    raise PyExc('IndexError', 'Replacement index out of range', site=(getattr(n, 'lineno', None), 'format'), kind='format')
+                v = args[auto]
+                auto += 1
+            elif field.isdigit():
+                if int(field) >= len(args):
+                    raise PyExc('IndexError', 'Replacement index out of range', site=(getattr(n, 'lineno', None), 'format'), kind='format')
+                v = args[int(field)]
+            elif field in kw:
+                v = kw[field]
+            else:
+                raise Unsupported('format field %r' % field)
+            if conv == 'r':
+                v = to_repr(it_, v, n)
+            elif conv == 's':
+                v = to_str(it_, v, n)
+            elif conv:
+                raise Unsupported('format conversion %r' % conv)
+            out = str_concat(out, format_value(it_, v, spec or '', n))
+        return out
     tbl = dict(lower=lower, join=join, strip=fmt_passthru('strip'), split=fmt_passthru('split'),
-               splitlines=fmt_passthru('splitlines'), ljust=fmt_passthru('ljust'), rjust=fmt_passthru('rjust'),
+               splitlines=fmt_passthru('splitlines'), ljust=just('<'), rjust=just('>'),
                upper=fmt_passthru('upper'), replace=fmt_passthru('replace'), startswith=startswith, encode=encode,
-               rstrip=fmt_passthru('rstrip'), lstrip=fmt_passthru('lstrip'), format=fmt_passthru('format'))
+               rstrip=fmt_passthru('rstrip'), lstrip=fmt_passthru('lstrip'), format=format_, endswith=endswith)
     if name not in tbl:
         raise Unsupported('str method %s' % name)
     return Builtin('str.' + name, tbl[name])
@@ -963,7 +1021,16 @@ def bytes_method(it, b, name, node):
         if isinstance(b, bytes):
             return b.find(*args)
         raise Unsupported('bytes.find symbolic')
-    tbl = dict(replace=replace, decode=decode, ljust=ljust, hex=hex_, join=join, find=find)
+    def translate(it_, args, kw, n):
+        # b.translate(None, delete): removal of the listed bytes; deleting NULs is replace(b'\x00', b'')
+        table = args[0] if args else kw.get('table')
+        delete = args[1] if len(args) > 1 else kw.get('delete', b'')
+        if isinstance(b, bytes) and isinstance(delete, bytes) and (table is None or isinstance(table, bytes)):
+            return b.translate(table, delete)
+        if table is None and delete == b'\x00':
+            return replace(it_, [b'\x00', b''], {}, n)
+        raise Unsupported('bytes.translate general')
+    tbl = dict(replace=replace, decode=decode, ljust=ljust, hex=hex_, join=join, find=find, translate=translate)
     if name not in tbl:
         raise Unsupported('bytes method %s' % name)
     return Builtin('bytes.' + name, tbl[name])
